@@ -124,6 +124,17 @@ def _container_enumeration(ctx: core.Ctx, kmax=160, collect=True):
 # B/C. flights
 
 
+def _exactly_3000ft_below(ceil_ft):
+    """Origin elevation e with e + 3000 ft equal to the ceiling bit for bit
+    ("that level would reach the ceiling": the flight starts at e)."""
+    ceil_m = ceil_ft * fc.FT
+    e = ceil_m - 3000.0 * fc.FT
+    for cand in (e, math.nextafter(e, math.inf), math.nextafter(e, -math.inf)):
+        if cand + 3000.0 * fc.FT == ceil_m:
+            return cand
+    return e
+
+
 @st.composite
 def flight_case(draw, stratum='general'):
     """Two strata (run separately so that the rare class has a fixed share):
@@ -135,14 +146,21 @@ def flight_case(draw, stratum='general'):
         ceil_ft = draw(st.integers(13000, 14700))
         table = dict(draw(fc.tables(dist_km=rt['dist_km'])), max_alt_ft=ceil_ft)
         m = draw(fc.mission(rt=rt, max_alt_ft=ceil_ft, above=False))
-        rel = draw(st.sampled_from(['above', 'above', 'own', 'own', 'below']))
-        off = {'above': st.floats(1.0, 400.0), 'own': st.floats(-900.0, -1.0), 'below': st.floats(-1500.0, -920.0)}[rel]
-        m['o'][2] = min(4500.0, ceil_ft * fc.FT + draw(off))
+        rel = draw(st.sampled_from(['above', 'above', 'own', 'own', 'below', 'exact', 'exact']))
+        if rel == 'exact':
+            m['o'][2] = _exactly_3000ft_below(ceil_ft)
+            m['cls'] += '+exact_ceiling'
+        else:
+            off = {'above': st.floats(1.0, 400.0), 'own': st.floats(-900.0, -1.0), 'below': st.floats(-1500.0, -920.0)}[rel]
+            m['o'][2] = min(4500.0, ceil_ft * fc.FT + draw(off))
         m['cls'] += '+low_ceiling'
     else:
         rt = draw(fc.route())
         table = draw(fc.tables(dist_km=rt['dist_km']))
         m = draw(fc.mission(rt=rt, max_alt_ft=table['max_alt_ft']))
+        if draw(st.integers(0, 11)) == 0:
+            m['o'][2] = _exactly_3000ft_below(table['max_alt_ft'])
+            m['cls'] += '+exact_ceiling'
     o = draw(fc.options())
     sm = draw(st.one_of(st.none(), st.none(), st.none(), st.floats(0.45, 0.98), st.floats(0.45, 0.98), st.floats(-0.1, 1.1)))
     fr = draw(st.lists(st.tuples(st.integers(0, 10**6), st.floats(0.01, 0.99)).map(list), min_size=3, max_size=8))
@@ -413,6 +431,8 @@ def flight_body(ctx: core.Ctx, case):
         ctx.label('origin:above_ceiling')
     elif m['o'][2] + 3000 * fc.FT >= ceiling:
         ctx.label('origin:start_at_own_elevation')
+        if m['o'][2] + 3000 * fc.FT == ceiling:
+            ctx.label('origin:plus_3000ft_equals_ceiling')
     with fc.airports(fc.mission_airports(m)):
         mission = fc.make_mission(m)
         builder = fc.make_builder(o)
